@@ -392,34 +392,23 @@ def step (ord : List Nat) (s : MState) : Op → MState × Status
     | .ok ext' =>
       if ext'.length = s.ext.length then (s, .ok) else (sync ord { s with ext := ext' }, .ok)
   | .addLinks es =>
+    -- the list form stops at the first item that raises; the update runs in a `finally`
+    -- (glue fix F1: before it, an item raising half-way skipped the update)
     match addMany s.ext es with
-    | (ext', .ok) => (sync ord { s with ext := ext' }, .ok)
-    | (ext', st) => ({ s with ext := ext' }, st)
+    | (ext', st) => (sync ord { s with ext := ext' }, st)
   | .removeLink i =>
     match eraseId s.ext i with
     | none => (s, .valueError)
     | some ext' => (sync ord { s with ext := ext' }, .ok)
   | .removeLinks is =>
     match removeMany s.ext is with
-    | (ext', .ok) => (sync ord { s with ext := ext' }, .ok)
-    | (ext', st) => ({ s with ext := ext' }, st)
+    | (ext', st) => (sync ord { s with ext := ext' }, st)
   | .delayBegin => ({ s with delay := s.delay + 1 }, .ok)
   | .delayEnd => if s.delay = 0 then (s, .ok) else (sync ord { s with delay := s.delay - 1 }, .ok)
-
-/-- List operations that raise half-way leave links registered without an update; histories
-containing such an operation are outside the hypothesis of `manager_inv`. -/
-def cleanOp (s : MState) : Op → Bool
-  | .addLinks es => (addMany s.ext es).2 == .ok
-  | .removeLinks is => (removeMany s.ext is).2 == .ok
-  | _ => true
 
 def run : MState → List (Op × List Nat) → MState
   | s, [] => s
   | s, (op, ord) :: r => run (step ord s op).1 r
-
-def runClean : MState → List (Op × List Nat) → Bool
-  | _, [] => true
-  | s, (op, ord) :: r => cleanOp s op && runClean (step ord s op).1 r
 
 /-! ### reading -/
 
